@@ -60,6 +60,22 @@ func (g *G) genPnftMsg() (sdk.Msg, string) {
 	if len(denoms) > 0 && kind != "create" && g.chance("aim-denom", 88) {
 		denom = pick(g, "existing-denom", denoms)
 	}
+	if adv {
+		// oversized identifiers (> 255 bytes) are part of the hostile domain: make sure a denom
+		// with such an id comes to exist and holds tokens
+		long := ""
+		for _, id := range denoms {
+			if len(id) > 255 {
+				long = id
+			}
+		}
+		switch {
+		case long == "" && kind == "create" && g.chance("create-long-denom", 35):
+			denom = strings.Repeat("z", 300)
+		case long != "" && kind != "create" && g.chance("aim-long-denom", 30):
+			denom = long
+		}
+	}
 	d := m.Denoms[denom]
 	ownerAct := func(addr []byte) {
 		if i := w.AcctIndex(sdk.AccAddress(addr).String()); i >= 0 {
